@@ -395,11 +395,12 @@ def _r_log(text):
 
 
 def _r_all(text):
-    """`(A..B).all(|i| E)` as the tail expression -> short-circuit while loop (template):
-         let mut vx_i = A; let mut vx_all = true;
-         while vx_i < B { let i = vx_i; if !(E) { vx_all = false; break; } vx_i += 1; }
+    """`(A..B).all(|i| E)` -> the equivalent short-circuit loop (fixed template, no break so that plain
+    invariants suffice):
+         let mut vx_i = A; let vx_n = B; let mut vx_all = true;
+         while vx_all && vx_i < vx_n { let i = vx_i; if !(E) { vx_all = false; } else { vx_i += 1; } }
          vx_all
-    """
+    `all` evaluates E for i = A, A+1, .. and stops at the first false; so does the loop."""
     m = mask(text)
     mt = re.search(r"\(\s*([^()]+?)\s*\.\.\s*([^()]+?)\s*\)\s*\.all\(\s*\|\s*(\w+)\s*\|", m)
     if not mt:
@@ -408,19 +409,18 @@ def _r_all(text):
     call_open = m.index("(", m.index(".all", mt.start()))
     call_close = match_close(m, call_open)
     expr = text[mt.end():call_close].strip()
-    ind = re.search(r"(?m)^([ \t]*)\S[^\n]*$", text[:mt.start()].rsplit("\n", 1)[-1] + "x")
     indent = " " * 8
     new = (
         "let mut vx_i = %s;\n" % a
         + indent + "let vx_n = %s;\n" % b
         + indent + "let mut vx_all = true;\n"
-        + indent + "while vx_i < vx_n {\n"
+        + indent + "while vx_all && vx_i < vx_n {\n"
         + indent + "    let %s = vx_i;\n" % var
         + indent + "    if !(%s) {\n" % expr
         + indent + "        vx_all = false;\n"
-        + indent + "        break;\n"
+        + indent + "    } else {\n"
+        + indent + "        vx_i += 1;\n"
         + indent + "    }\n"
-        + indent + "    vx_i += 1;\n"
         + indent + "}\n"
         + indent + "vx_all"
     )
